@@ -12,6 +12,28 @@ A1 = "        sdof_acc[s:] = -2 * xi * w[:, np.newaxis] * resp_v[s:] - w2[:, np.
 A2 = "        sdof_acc = -2 * xi * w[:, np.newaxis] * resp_v[s:] - w2[:, np.newaxis] * resp_u[s:]\n"
 U = "        resp_u[s:, i + 1] = (a[0][0] * resp_u[s:, i] + a[0][1] * resp_v[s:, i] + b[0][0] * acc[i] + b[0][1] * acc[i + 1])\n"
 VARIANTS = [
+    # closed forms and recurrence
+    B("nj-a12-missing-sqrt", SD, "    a_12 = exp_b / (w * sqrt_b2) * sin_wsqrt", "    a_12 = exp_b / w * sin_wsqrt", "R-NJ-COEF"),
+    B("nj-a21-sign", SD, "    a_21 = -w / sqrt_b2 * exp_b * sin_wsqrt", "    a_21 = w / sqrt_b2 * exp_b * sin_wsqrt", "R-NJ-COEF"),
+    B("nj-exp-sign", SD, "    exp_b = np.exp(-xi * w * dt)", "    exp_b = np.exp(xi * w * dt)", "R-NJ-COEF"),
+    B("nj-two-b-ov-w3-power", SD, "    two_b_ov_w3 = 2 * xi / (w ** 3 * dt)", "    two_b_ov_w3 = 2 * xi / (w ** 2 * dt)", "R-NJ-COEF"),
+    B("nj-b12-sign-tail", SD, "- one_ov_w2 + two_b_ov_w3\n", "- one_ov_w2 - two_b_ov_w3\n", "R-NJ-COEF"),
+    B("nj-b21-dt-missing", SD, "(wsqrtsin + xwcos)) + one_ov_w2 / dt\n", "(wsqrtsin + xwcos)) + one_ov_w2\n", "R-NJ-COEF"),
+    B("nj-undamped-frequency-in-sin", SD, "    sin_wsqrt = np.sin(w_sqrt_b2 * dt)", "    sin_wsqrt = np.sin(w * dt)", "R-NJ-COEF"),
+    B("nj-cos-from-sin", SD, "    cos_wsqrt = np.cos(w_sqrt_b2 * dt)", "    cos_wsqrt = np.sqrt(1. - sin_wsqrt ** 2)", "R-NJ-COEF"),
+    B("nj-matrix-transposed", SD, "    a = np.array([[a_11, a_12], [a_21, a_22]])", "    a = np.array([[a_11, a_21], [a_12, a_22]])", "R-NJ-COEF"),
+    B("nj-rec-b-entries-swapped", SD, "        resp_u[s:, i + 1] = (a[0][0] * resp_u[s:, i] + a[0][1] * resp_v[s:, i] + b[0][0] * acc[i] + b[0][1] * acc[i + 1])\n", "        resp_u[s:, i + 1] = (a[0][0] * resp_u[s:, i] + a[0][1] * resp_v[s:, i] + b[0][1] * acc[i] + b[0][0] * acc[i + 1])\n", "R-NJ-REC"),
+    B("nj-rec-v-uses-a0", SD, "        resp_v[s:, i + 1] = (a[1][0] * resp_u[s:, i] + a[1][1] * resp_v[s:, i] + b[1][0] * acc[i] + b[1][1] * acc[i + 1])\n", "        resp_v[s:, i + 1] = (a[0][0] * resp_u[s:, i] + a[1][1] * resp_v[s:, i] + b[1][0] * acc[i] + b[1][1] * acc[i + 1])\n", "R-NJ-REC"),
+    B("nj-rec-load-not-negated", SD, "    acc = -np.array(acc, dtype=float)\n", "    acc = np.array(acc, dtype=float)\n", "R-NJ-REC"),
+    B("nj-rec-args-swapped", SD, "    a, b = compute_a_and_b(xi, w, dt)\n", "    a, b = compute_a_and_b(xi, dt, w)\n", "R-NJ-REC"),
+    B("nj-rec-unpack-swapped", SD, "    a, b = compute_a_and_b(xi, w, dt)\n", "    b, a = compute_a_and_b(xi, w, dt)\n", "R-NJ-REC"),
+    T("nj-xi2-power-form", SD, "    xi2 = xi * xi  # D2", "    xi2 = xi ** 2  # D2"),
+    T("nj-sqrt-as-power", SD, "    sqrt_b2 = np.sqrt(1. - xi2)", "    sqrt_b2 = (1. - xi2) ** 0.5"),
+    T("nj-cos-arg-reordered", SD, "    cos_wsqrt = np.cos(w_sqrt_b2 * dt)", "    cos_wsqrt = np.cos(dt * w * sqrt_b2)"),
+    T("nj-a11-expanded", SD, "    a_11 = exp_b * (xi / sqrt_b2 * sin_wsqrt + cos_wsqrt)", "    a_11 = exp_b * cos_wsqrt + exp_b * xi * sin_wsqrt / sqrt_b2"),
+    T("nj-b22-regrouped", SD, "    b_22 = -exp_b * (two_b_ov_w2 * (cos_wsqrt - xi / sqrt_b2 * sin_wsqrt) - two_b_ov_w3 * (wsqrtsin + xwcos)) - one_ov_w2 / dt",
+      "    b_22 = exp_b * (two_b_ov_w3 * (wsqrtsin + xwcos) - two_b_ov_w2 * (cos_wsqrt - xi / sqrt_b2 * sin_wsqrt)) - 1. / (w2 * dt)"),
+    T("nj-rec-reordered-terms", SD, "        resp_u[s:, i + 1] = (a[0][0] * resp_u[s:, i] + a[0][1] * resp_v[s:, i] + b[0][0] * acc[i] + b[0][1] * acc[i + 1])\n", "        resp_u[s:, i + 1] = b[0][1] * acc[1 + i] + acc[i] * b[0][0] + resp_v[s:, i] * a[0][1] + a[0][0] * resp_u[s:, i]\n"),
     B("t0-sign-flip", SD, "        sdof_acc[0] = acc\n", "        sdof_acc[0] = -acc\n", "R-T0"),
     B("t0-row-scaled", SD, "        sdof_acc[0] = acc\n", "        sdof_acc[0] = acc * dt\n", "R-T0"),
     B("t0-stores-all-rows", SD, U, U.replace("resp_u[s:, i + 1] =", "resp_u[:, i + 1] =").replace("* resp_u[s:, i]", "* resp_u[:, i]").replace("resp_v[s:, i]", "resp_v[:, i]"), "R-T0"),
